@@ -289,3 +289,40 @@ def c04_around_text_gap(f, replay):
     doc = Node.from_json(schema, replay.get("culprit_doc") or replay["doc"])
     step = Step.from_json(schema, st)
     return not py_around_guards(doc, step)[0]
+
+
+def c11_fitter_partial_node(f, replay):
+    """C11 open finding: the Fitter raises ValueError("Called contentMatchAt on a node with invalid content") from
+    place_nodes when a node N on the slice's *end* spine (within open_end) has children that are not a matchable beginning
+    of N's content expression — which is legitimate for a slice when N is also open at the start (its leading children
+    were cut away: <block(b("z"))>(2,2) cut from block(a, b) with the parents kept, block "a b") or becomes so once the
+    start-open first child has been taken apart (<block(a("y"), b("z"))>(2,2)).  The frontier entry for the re-opened N is
+    computed with `N.content_match_at(N.child_count)`, which raises on such a partial node.  Upstream Fitter.placeNodes
+    does the same.  Class: that exception from a replace-family operation, and such a node exists on the end spine."""
+    if "contentMatchAt" not in str(replay.get("what", "")):
+        return False
+    if replay.get("op") not in ("replace", "replace_range", "replace_with", "insert", "replace_range_with"):
+        return False
+    from prosemirror.model import Slice
+    schema = _schema_of(replay)
+    sls = [a for a in (replay.get("args") or []) if isinstance(a, dict) and ("openStart" in a or "openEnd" in a)]
+    if not sls:
+        return False
+    sl = Slice.from_json(schema, sls[0])
+    frag, b, a, on_start = sl.content, sl.open_end, sl.open_start, True
+    while b > 0 and frag.child_count >= 1:
+        node = frag.last_child
+        if node.is_leaf:
+            return False
+        on_start = on_start and a > 0 and frag.child_count == 1
+        kids = [node.child(i) for i in range(node.child_count)]
+        # as it stands, and with the start-open first child taken apart (only when N is on the start spine too)
+        variants = [kids] + ([kids[1:]] if on_start and a > 1 and len(kids) >= 2 else [])
+        for ks in variants:
+            m = node.type.content_match
+            for k in ks:
+                m = m.match_type(k.type) if m is not None else None
+            if m is None:
+                return True
+        frag, b, a = node.content, b - 1, a - 1
+    return False
